@@ -439,6 +439,9 @@ func (v *Verifier) scanInstr(in ssa.Instruction, ws *writeSet, modA map[*ssa.All
 			if followCalls {
 				ws.union(v.calleeWrites(c.Fn.(*ssa.Function)))
 			}
+		default:
+			// a call through a function value or interface may allocate
+			ws.allocates = true
 		}
 	case *ssa.MakeClosure:
 		// conservatively: whoever makes a closure may run it
